@@ -40,6 +40,22 @@ var translTargets = []translTarget{
 	{"internal/evaluator", "index"},
 }
 
+// second group (Jmes/Generated/Transl2.lean, namespace T2): the integer preludes of the string builtins that take counts,
+// widths and offsets. The int variables defined by the statements before the region (`w, isNum, ok := toInt(width)`)
+// are parameters of the region.
+var translTargets2 = []translTarget{
+	{"internal/evaluator", "splitCount"},
+	{"internal/evaluator", "padSpaceLeft"},
+	{"internal/evaluator", "padSpaceRight"},
+	{"internal/evaluator", "padLeft"},
+	{"internal/evaluator", "padRight"},
+	{"internal/evaluator", "replaceCount"},
+	{"internal/evaluator", "findFirstBetween"},
+	{"internal/evaluator", "findFirstFrom"},
+	{"internal/evaluator", "findLastBetween"},
+	{"internal/evaluator", "findLastFrom"},
+}
+
 type region struct {
 	name    string
 	params  []string // lean parameter names: frame parameters first, then inputs
@@ -361,6 +377,12 @@ func (t *tr) stmts(ss []ast.Stmt, k func(ind string) string, ind string) string 
 		return stop()
 	case *ast.IfStmt:
 		if s.Init != nil {
+			// `if c := e; cond { … }`: the init statement, then the test (c is a distinct object: no capture)
+			if as, ok := s.Init.(*ast.AssignStmt); ok && as.Tok == token.DEFINE {
+				s2 := *s
+				s2.Init = nil
+				return t.stmts(append([]ast.Stmt{as, &s2}, rest...), k, ind)
+			}
 			return stop()
 		}
 		var divs []string
@@ -395,7 +417,7 @@ func (t *tr) stmts(ss []ast.Stmt, k func(ind string) string, ind string) string 
 	return stop()
 }
 
-func (t *tr) region(name string, fd *ast.FuncDecl, body []ast.Stmt) *region {
+func (t *tr) region(name string, fd *ast.FuncDecl, body []ast.Stmt, free ...types.Object) *region {
 	t.reg = &region{name: name}
 	t.names = map[types.Object]string{}
 	t.used = map[string]bool{}
@@ -408,6 +430,12 @@ func (t *tr) region(name string, fd *ast.FuncDecl, body []ast.Stmt) *region {
 				t.reg.params = append(t.reg.params, t.nameOf(o))
 			}
 		}
+	}
+	// int variables defined by the statements before the region (`w, isNum, ok := toInt(width)`): parameters of the
+	// region, every 64-bit value being possible
+	for _, o := range free {
+		t.reg.frame = append(t.reg.frame, o)
+		t.reg.params = append(t.reg.params, t.nameOf(o))
 	}
 	// frame: int variables declared at the top level of the region
 	for _, s := range body {
@@ -461,9 +489,13 @@ func typeTag(s string) string {
 	return b.String()
 }
 
-func genTransl(pkgs []*packages.Package) string {
+func genTransl(pkgs []*packages.Package) string { return genTranslOf(pkgs, translTargets, "T") }
+
+func genTransl2(pkgs []*packages.Package) string { return genTranslOf(pkgs, translTargets2, "T2") }
+
+func genTranslOf(pkgs []*packages.Package, targets []translTarget, ns string) string {
 	var regs []*region
-	for _, tg := range translTargets {
+	for _, tg := range targets {
 		fd, pkg := findFunc(pkgs, tg.pkgSuffix, "", tg.fn)
 		if fd == nil || fd.Body == nil {
 			continue
@@ -490,12 +522,23 @@ func genTransl(pkgs []*packages.Package) string {
 		if typed == 0 {
 			// `x, ok := v.(T); if !ok { return … }` prefix: skip the leading statements that are not int code
 			body := fd.Body.List
+			var free []types.Object
 			for len(body) > 0 {
 				t2 := &tr{pkg: pkg, fset: pkg.Fset}
-				r := t2.region(tg.fn, fd, body)
+				r := t2.region(tg.fn, fd, body, free...)
 				if !strings.HasPrefix(r.body, "Exit.reach") {
 					regs = append(regs, r)
 					break
+				}
+				// the statement is skipped: int variables it defines become parameters of the region
+				if as, ok := body[0].(*ast.AssignStmt); ok && as.Tok == token.DEFINE {
+					for _, l := range as.Lhs {
+						if id, ok := l.(*ast.Ident); ok && id.Name != "_" {
+							if o := pkg.TypesInfo.Defs[id]; o != nil && isIntType(o.Type()) {
+								free = append(free, o)
+							}
+						}
+					}
 				}
 				body = body[1:]
 			}
@@ -504,7 +547,7 @@ func genTransl(pkgs []*packages.Package) string {
 	sort.SliceStable(regs, func(i, j int) bool { return regs[i].name < regs[j].name })
 	var b strings.Builder
 	b.WriteString("/- GENERATED by /verif/harness/cmd/facts (transl.go) from the tree under test; do not edit -/\n")
-	b.WriteString("import Jmes.Tie.TranslBase\nnamespace Jmes.Generated.T\nopen Jmes.Tie.TranslBase\n\n")
+	b.WriteString("import Jmes.Tie.TranslBase\nnamespace Jmes.Generated." + ns + "\nopen Jmes.Tie.TranslBase\n\n")
 	var names []string
 	for _, r := range regs {
 		names = append(names, leanStr(r.name))
@@ -533,6 +576,6 @@ func genTransl(pkgs []*packages.Package) string {
 		fmt.Fprintf(&b, "def %s_rets : List String := %s\n", r.name, strs(r.rets))
 		fmt.Fprintf(&b, "def %s_reaches : List String := %s\n\n", r.name, strs(r.reaches))
 	}
-	fmt.Fprintf(&b, "def regions : List String := [%s]\n\nend Jmes.Generated.T\n", strings.Join(names, ", "))
+	fmt.Fprintf(&b, "def regions : List String := [%s]\n\nend Jmes.Generated.%s\n", strings.Join(names, ", "), ns)
 	return b.String()
 }
